@@ -17,7 +17,7 @@ type Result struct {
 	Err       error  // parse or compile error
 	Stage     string // "parse" or "compile" when Err != nil
 	Panic     any
-	Horizon   bool // the step horizon was exceeded
+	Horizon   bool  // the step horizon was exceeded
 	Choices   []int // owned map-order choice points: number of alternatives at each
 	BadReplay string
 }
@@ -39,11 +39,17 @@ func (r Result) Verdict() string {
 
 // Options of a compile.
 type Options struct {
-	Features []string // enabled features "module:feature"; nil = checker that enables nothing
-	AllFeatures bool  // no features checker at all is not the same as all enabled: enable listed ones only
-	Filter   compile.SchemaFilter
-	MapOrder []int // prefix of map-order choices (nil = Go's native order, chooser off); use []int{} for canonical order
-	Horizon  int64
+	Features    []string // enabled features "module:feature"; nil = checker that enables nothing
+	AllFeatures bool     // no features checker at all is not the same as all enabled: enable listed ones only
+	// FeatureSupply: how the enabled set reaches the compiler. "" = one checker listing the enabled
+	// features; the other ways compose checkers over FeatureUniverse (the last checker that knows a
+	// feature decides): "enable-all-then-disable", "disable-all-then-enable", "with-nil-members",
+	// "enable-disable-enable".
+	FeatureSupply   string
+	FeatureUniverse []string
+	Filter          compile.SchemaFilter
+	MapOrder        []int // prefix of map-order choices (nil = Go's native order, chooser off); use []int{} for canonical order
+	Horizon         int64
 }
 
 // Compile parses every text afresh (compile mutates parse trees) and compiles
@@ -106,6 +112,26 @@ func Compile(mods map[string]string, o Options) (res Result) {
 	var fc compile.FeaturesChecker
 	if o.Features != nil {
 		fc = compile.FeaturesFromNames(true, o.Features...)
+		on := map[string]bool{}
+		for _, f := range o.Features {
+			on[f] = true
+		}
+		var off []string
+		for _, f := range o.FeatureUniverse {
+			if !on[f] {
+				off = append(off, f)
+			}
+		}
+		switch o.FeatureSupply {
+		case "enable-all-then-disable":
+			fc = compile.MultiFeatureCheckers(compile.FeaturesFromNames(true, o.FeatureUniverse...), compile.FeaturesFromNames(false, off...))
+		case "disable-all-then-enable":
+			fc = compile.MultiFeatureCheckers(compile.FeaturesFromNames(false, o.FeatureUniverse...), compile.FeaturesFromNames(true, o.Features...))
+		case "with-nil-members":
+			fc = compile.MultiFeatureCheckers(nil, compile.FeaturesFromNames(true, o.Features...), nil)
+		case "enable-disable-enable":
+			fc = compile.MultiFeatureCheckers(compile.FeaturesFromNames(true, o.Features...), compile.FeaturesFromNames(false, o.FeatureUniverse...), compile.FeaturesFromNames(true, o.Features...))
+		}
 	}
 	ms, err := compile.CompileParseTrees(nil, trees, fc, false, o.Filter)
 	if err != nil {
